@@ -42,6 +42,22 @@ CHECKS = {
     'C11': ('snapshot-before / compare-after wrappers on all five feature constructors while compute_batch_ranking runs all 2^5 flag subsets; cell-level recomputation of the stated rules',
             'Every constructor invocation is checked for: old columns preserved in place, new columns complete and row-aligned, caller frame untouched, MULTIEX cells = token membership, one-/two-sided sub-feature cells = stated rule, CONTROL-target = label.',
             'RangeIndex string frames; feature names avoid &,|,-. Noise flag: pipeline raises later (out of scope), constructor still observed.', '3/C11'),
+
+    'C12': ('reference-model monitor: formulas derived from transformer names (table + fw-name parser) evaluated with scalar arithmetic; keep/drop rule re-evaluated; preset-union and vault-immutability monitors',
+            'Every emitted cell of every (column class x transformer) case is compared with the formula its name states; every emitted column must satisfy the keep rule and every dropped candidate must fail it (borderline cases skipped); every ordered pair/triple of preset names must select exactly the union and leave the presets themselves unchanged.',
+            'Finite inputs; 1-ulp library differences at exact .5 rounding boundaries are skipped.', '3/C12'),
+    'C13': ('reference-model monitor over histories of batches: set/Counter recomputation of coverage, cardinality, repetition histogram and rare-value table; differential across all compositions of the same row sequence; files of real task runs across mini-batch sizes',
+            'All 2^(n-1) compositions of row sequences with n<=9/11 are driven and every statistic must equal the exact recomputation and be identical across compositions; the files written by the ranking and rare-value tasks are compared across mini-batch sizes and with the recomputation.',
+            'Cardinality exact below warm-up capacity (32-bit collisions re-examined).', '3/C13'),
+    'C14': ('class-invariant monitor: shadow set maintained beside every sketch, len() compared at sampled prefixes, duplicates re-inserted around the warm-up boundary; monitoring subclass installed in the pipeline',
+            'Exactness for <= 2^18 distinct values, 2% accuracy up to 2^19 (quick) / 2^21 (thorough), invariance under re-insertion of seen values (also after the switch, incl. full replay) and insertion order are checked on real sketches, including the exact boundary crossing with a duplicate arriving at a full warm-up set.',
+            'Statistical 2% bound has > 8 sigma margin.', '3/C14'),
+    'C15': ('shadow-counter invariants checked after every update on several simultaneously live sketches/counters; one pass under NUMBA_BOUNDSCHECK=1',
+            'estimate >= true weight, estimate <= total weight, every row sums to the total; bounded counter never over-counts, is exact below its bound, never tracks more than bound keys; instances are interleaved so state shared between instances is observed.',
+            'Integer weights, totals < 2^31.', '3/C15'),
+    'C16': ('renderer-as-specification round-trip monitor for csv / tab-separated / VW lines and namespace maps; admitted rows of the streaming loop compared with the well-formed rows',
+            'Every generated table row is rendered and must be parsed back cell for cell (CSV with both quoting styles and with the delimiter arguments real callers pass; tab-separated rows with empty edge cells and exotic whitespace; VW lines with shuffled/omitted/unknown namespaces, many lines per header in one process); rows with a wrong field count must be rejected whole.',
+            'Cells without line breaks; VW prefix = first two characters of the joined token string.', '3/C16'),
 }
 
 PENDING_REASON = 'check not built yet in this revision (planned: runtime monitor per DESIGN.md section 3)'
